@@ -80,6 +80,7 @@ class Registry:
     self.opaque_methods = {}
     self.opaque_iter = None
     self.isinstance_hook = None
+    self.lock_ranks = {}          # lock hierarchy by field name (lower rank first); see calls.lock_acquire
     self.hasattr_hook = None
     self.opaque_item_error = 'ValueError'
     self.opaque_call_error = 'ValueError'
